@@ -5,8 +5,29 @@
     has run; [n_had]: node n was the dependency of at least one addOut call; [n_hrel]: the registered callback. *)
 From Coq Require Import List.
 From Thunder Require Import Reactive.Graph Reactive.Rerunner Reactive.ProofsBase Reactive.ProofsMutex
-  Reactive.ProofsRefcount Reactive.Drive.
+  Reactive.ProofsRefcount Reactive.ProofsArmed Reactive.ProofsStale Reactive.Drive.
 Import ListNotations.
+
+(** The value of a computation is the list of (slot, version) pairs it read, with the values of the cached
+    children it adopted appended (reactive.Cache returns child.value whether the child was just computed or
+    found in the cache).  At quiescence no valid computation — published, or memoised in a cache — holds a
+    superseded version: a cache entry that would serve one is invalidated, and cleanInvalidated / addOut's
+    shouldInvalidate keep it from being served without a re-run. *)
+Theorem valid_computation_holds_current_versions :
+  forall k progs s c sl v, reachable (init k progs) s -> quiescent s ->
+  n_inv (getN s c) = false -> In (sl, v) (n_val (getN s c)) -> v = slot_ver s sl.
+Proof. exact quiescent_valid_current. Qed.
+Print Assumptions valid_computation_holds_current_versions.
+
+(** ... in particular the final output of every rerunner that was neither stopped nor has failed contains no
+    value computed from a superseded version, read directly or through cached children. *)
+Theorem final_output_has_no_superseded_version :
+  forall k progs s r, reachable (init k progs) s -> quiescent s -> r < length (s_rrs s) ->
+  r_cancel (getr s r) = false -> r_failed (getr s r) = false ->
+  exists c, r_comp (getr s r) = Some c /\
+    forall sl v, In (sl, v) (n_val (getN s c)) -> v = slot_ver s sl.
+Proof. exact no_lost_invalidation_lemma. Qed.
+Print Assumptions final_output_has_no_superseded_version.
 
 (** Under every schedule a cleanup callback runs at most once ... *)
 Theorem cleanup_at_most_once :
